@@ -1,6 +1,7 @@
 package rules
 
 import (
+	"go/types"
 	"go/token"
 	"strings"
 
@@ -18,10 +19,15 @@ func init() {
 }
 
 func checkC17(c *Ctx) {
+	c.checkKeyMakers("C17", 3)
 	p, r := c.P, c.R
 	roots := c.Roots()
 	live := c.LiveReach()
 	r.Min("C17.guards", 6)
+	// the three indexes survive a restart together (the genesis clauses of C15 about them)
+	c.includeKeys("genesis", "C15", rulesIn("C15.faithful-import", "C15.field-roundtrip", "C15.prefix-export"), func(rule, key string) bool {
+		return strings.Contains(key, "AddressKey") || strings.Contains(key, "DelegateKeys")
+	})
 	r.Min("C17.triple", 2)
 	r.Min("C17.self", 1)
 	r.Min("C17.writers", 2)
@@ -388,13 +394,31 @@ func (c *Ctx) scansPrefix(call *ssa.Call, prefix string) bool {
 				// whole store: the function must trim/compare with the prefix constant
 				t := c.P.PrefixConstants("mhub2/types")
 				want := t.ByName[prefix]
+				// ... and with no other prefix constant: a filter on one index followed by a trim of another
+				// contradicts itself and matches nothing
+				others := false
 				ana.Instrs(g, func(in ssa.Instruction) {
 					if st, ok := in.(*ssa.Store); ok {
-						if k, ok := st.Val.(*ssa.Const); ok && k.Value != nil && k.Value.ExactString() == sprintf("%d", want) {
-							found = true
+						if k, ok := st.Val.(*ssa.Const); ok && k.Value != nil {
+							if k.Value.ExactString() == sprintf("%d", want) {
+								found = true
+							} else if ia, ok := st.Addr.(*ssa.IndexAddr); ok {
+								if al, ok := ia.X.(*ssa.Alloc); ok {
+									if at, ok := al.Type().Underlying().(*types.Pointer); ok {
+										if arr, ok := at.Elem().Underlying().(*types.Array); ok && arr.Len() == 1 {
+											if bt, ok := arr.Elem().Underlying().(*types.Basic); ok && bt.Kind() == types.Uint8 {
+												others = true
+											}
+										}
+									}
+								}
+							}
 						}
 					}
 				})
+				if others {
+					return false
+				}
 			}
 		}
 	}
